@@ -1412,6 +1412,9 @@ class Corr:
         tmpmat = np.empty((Ntrunc, Ntrunc), dtype=object)
         rmat = []
         for t in range(basematrix.T):
+            if self.content[t] is None:
+                rmat.append(None)
+                continue
             for i in range(Ntrunc):
                 for j in range(Ntrunc):
                     tmpmat[i][j] = evecs[i].T @ self[t] @ evecs[j]
